@@ -199,7 +199,7 @@ func parent(id, tier string) int {
 		return 2
 	}
 	defer os.RemoveAll(work)
-	evPath := filepath.Join(VerifDir(), "evidence", id+".json")
+	evPath := filepath.Join(EvidenceDir(), id+".json")
 	os.MkdirAll(filepath.Dir(evPath), 0o755)
 	os.Remove(evPath)
 
@@ -351,7 +351,7 @@ func parent(id, tier string) int {
 	races := collectRaces(work)
 	for _, rr := range races {
 		if rr.inRepo {
-			p := filepath.Join(VerifDir(), "replays", fmt.Sprintf("%s-race-%d.txt", id, h64(rr.key)%100000))
+			p := filepath.Join(ReplayDir(), fmt.Sprintf("%s-race-%d.txt", id, h64(rr.key)%100000))
 			os.MkdirAll(filepath.Dir(p), 0o755)
 			os.WriteFile(p, []byte(rr.text), 0o644)
 			m.Violations = append(m.Violations, Violation{Property: id, Msg: "data race with a frame in neofs-contract/deploy: " + rr.key, Replay: p})
@@ -659,6 +659,7 @@ func writeEvidence(c *Check, tier string, seed uint64, m *Merged, wall time.Dura
 		"violations":  len(m.Violations),
 	}
 	data, _ := json.MarshalIndent(ev, "", " ")
-	p := filepath.Join(VerifDir(), "evidence", c.ID+".json")
+	p := filepath.Join(EvidenceDir(), c.ID+".json")
+	os.MkdirAll(filepath.Dir(p), 0o755)
 	os.WriteFile(p, data, 0o644)
 }
